@@ -109,7 +109,9 @@ func interestingCuts(s gen.Shape, in []byte) map[string][]int {
 
 func drawSchedule(t *rapid.T, label string, in []byte, cuts map[string][]int) run.Schedule {
 	s := run.Schedule{}
-	switch rapid.IntRange(0, 5).Draw(t, label+"kind") {
+	switch rapid.IntRange(0, 6).Draw(t, label+"kind") {
+	case 6:
+		s.Sizes = rapid.SliceOfN(rapid.IntRange(10, 48), 1, 3).Draw(t, label+"sizes")
 	case 0:
 		s.Sizes = []int{1}
 	case 1:
